@@ -25,6 +25,12 @@ def values_for(name, n, flavour):
         return ["s%s%02d" % (name, i) for i in range(n)]
     if flavour == "mixed":
         return values_for(name, n, ["int", "float", "str"][ord(name[0]) % 3])
+    if flavour == "hetero":
+        # ints and floats within one argument (each value must arrive with the type it was given)
+        return [10 * (i + 1) if i % 2 == 0 else 10 * (i + 1) + 0.5 for i in range(n)]
+    if flavour == "hetero_str":
+        # numbers and strings within one argument (no sort order: only for nested / flat outputs)
+        return [[10 * (i + 1), 10 * (i + 1) + 0.5, "s%s%02d" % (name, i)][i % 3] for i in range(n)]
     raise ValueError(flavour)
 
 
@@ -55,10 +61,12 @@ class Concrete(object):
         self.attrs = dict(ATTRS) if meta["attrs"] else {}
         # id <-> kwargs bijection from the spec's enumeration
         self.id_of = {}
+        self.id_of_loose = {}
         self.kwargs_of = {}
         for i, loc in enumerate(case["settings"]):
             kw = self.loc_kwargs(loc)
             self.id_of[self.key(kw)] = i + 1
+            self.id_of_loose[self.key_loose(kw)] = i + 1
             self.kwargs_of[i + 1] = kw
 
     def loc_kwargs(self, loc):
@@ -69,6 +77,11 @@ class Concrete(object):
         return kw
 
     def key(self, kw):
+        # type-strict: 1, 1.0, True and '1' are different argument values
+        return tuple((nm, type(kw[nm]).__name__, kw[nm]) for nm in self.fn_args)
+
+    def key_loose(self, kw):
+        # for values read back from a table column (where ints next to floats have become floats)
         return tuple((nm, kw[nm]) for nm in self.fn_args)
 
     def combos(self):
@@ -469,6 +482,10 @@ def _ds_fn(log, mode, first_index=None):
         if mode == "auto":
             import xarray as xr
             return xr.Dataset({"x": float(i), "v": ("t", np.array([float(i), i + 0.5]))}, coords={"t": T_VALUES})
+        if mode == "autoc":
+            # labelled output whose internal dimension has no coordinate of its own: a constant names it
+            import xarray as xr
+            return xr.Dataset({"x": float(i), "v": ("t", np.array([float(i), i + 0.5]))})
         if mode == "autodict":
             return {"x": float(i), "y": float(2 * i)}
         raise ValueError(mode)
@@ -546,7 +563,7 @@ def replay_case(case, variant):
             else:
                 mode = variant.get("ds", "x")
                 to_df = kind == "df"
-                var_names = {"x": "x", "xy": ["x", "y"], "xv": ["x", "v"], "auto": None, "autodict": None, "autovar": None, "xmix": "x"}[mode]
+                var_names = {"x": "x", "xy": ["x", "y"], "xv": ["x", "v"], "auto": None, "autodict": None, "autovar": None, "xmix": "x", "autoc": None}[mode]
                 var_dims = None
                 var_coords = None
                 if mode == "xv":
@@ -682,7 +699,7 @@ def check_ds(case, conc, variant, ds):
     mode = variant.get("ds", "x")
     axes = case["axes"]
     avals = axis_values(conc, axes)
-    vars_ = {"x": ["x"], "xy": ["x", "y"], "xv": ["x", "v"], "auto": ["x", "v"], "autodict": ["x", "y"], "autovar": ["x", "v"], "xmix": ["x"]}[mode]
+    vars_ = {"x": ["x"], "xy": ["x", "y"], "xv": ["x", "v"], "auto": ["x", "v"], "autodict": ["x", "y"], "autovar": ["x", "v"], "xmix": ["x"], "autoc": ["x", "v"]}[mode]
     if sorted(ds.data_vars) != sorted(vars_):
         return "data variables %r, expected %r" % (sorted(ds.data_vars), sorted(vars_))
     for nm, vals in zip(conc.fn_args, avals):
@@ -753,7 +770,7 @@ def check_df(case, conc, variant, df):
     for _, row in df.iterrows():
         kw = {nm: row[nm] for nm in conc.fn_args}
         kw = {k: (v.item() if hasattr(v, "item") else v) for k, v in kw.items()}
-        i = conc.id_of.get(conc.key(kw))
+        i = conc.id_of_loose.get(conc.key_loose(kw))
         if i is None:
             return "row with arguments %r is not a requested setting" % (kw,)
         if float(row["x"]) != float(i):
@@ -775,7 +792,7 @@ def check_df(case, conc, variant, df):
 RESULT_KINDS_GRID = ["scalar", "tuple2", "array", "int", "list2d"]
 RESULT_KINDS_CASES = ["scalar", "tuple2", "array", "str", "strbool", "list2d", "bool"]
 EXEC_STYLES = ["submit", "apply", "mppool"]
-VALUE_FLAVOURS = ["int", "float", "str", "mixed"]
+VALUE_FLAVOURS = ["int", "float", "str", "mixed", "hetero", "hetero_str"]
 SPELLINGS = ["dict", "tuple", "list", "iter"]
 
 
@@ -784,10 +801,12 @@ def variants_for(case, idx, prop, n_variants):
     out = []
     for j in range(n_variants):
         k = idx * 7 + j * 3
-        v = dict(values=VALUE_FLAVOURS[(k + j) % 4], spelling=SPELLINGS[(k // 2 + j) % 4],
+        v = dict(values=VALUE_FLAVOURS[(k + j) % 6], spelling=SPELLINGS[(k // 2 + j) % 4],
                  exec=EXEC_STYLES[(k + j) % 3], seed=[True, 3, 11][(k + j) % 3],
                  cases_as_dict=(k % 2 == 0), noshuffle=[False, 0][(k // 3) % 2], case_key_order=(k % 3 == 1),
                  dupkind=k % 3, decoy=(k % 2 == 1), bare_cases=(k % 4 < 2), infer_fn_args=(k % 5 < 2))
+        if v["values"] == "hetero_str" and (cfg["kind"] not in ("nested", "flat") or cfg.get("dup") or cfg["nca"]):
+            v["values"] = "hetero"
         if cfg["kind"] in ("nested", "flat"):
             kinds = RESULT_KINDS_CASES if cfg["nca"] else RESULT_KINDS_GRID
             v["result"] = kinds[(k + j) % len(kinds)]
@@ -798,7 +817,7 @@ def variants_for(case, idx, prop, n_variants):
         elif cfg["kind"] == "ds":
             modes = ["x", "xy", "xv", "auto"] if cfg["meta"]["tdim"] else ["x", "xy", "autodict", "xmix"]
             if cfg["meta"]["tdim"]:
-                modes = ["xv", "auto", "autovar"] if not cfg["meta"]["cdim"] else ["xv"]
+                modes = ["xv", "auto", "autovar"] if not cfg["meta"]["cdim"] else ["xv", "autoc"]
             v["ds"] = modes[(k + j) % len(modes)]
             entries = ["to_ds", "runner", "label"] + (["case_to"] if cfg["nca"] else [])
             v["entry"] = entries[(k + j) % len(entries)]
@@ -810,6 +829,12 @@ def variants_for(case, idx, prop, n_variants):
             entries = ["to_ds", "runner"] + (["case_to"] if cfg["nca"] else [])
             v["entry"] = entries[(k + j) % len(entries)]
         out.append(v)
+    if cfg["overlap"] and cfg["nca"] and cfg["kind"] == "flat":
+        # rejection must happen at every entry point: replay the (cheap) behaviour through both
+        seen = {v["entry"] for v in out}
+        for entry in ("core", "case_runner"):
+            if entry not in seen:
+                out.append(dict(out[0], entry=entry))
     return out
 
 
@@ -870,13 +895,15 @@ def drive(rep, runs, prop, n_variants=1, max_replays=None):
             idx += 1
     results = common.pmap(_replay_job, jobs)
     ndrift = 0
+    harness = []
     for case, variant, prob, drift in results:
         nontrivial = case["n"] >= 2 or case["outcome"] == "rejected"
         rep.add_case([case["cfg"], case["order"], case["hist"], variant], nontrivial=nontrivial,
                      sample=dict(cfg=case["cfg"], order=case["order"], hist=case["hist"], out=case["out"], variant=variant)
                      if len(rep.samples) < 3 and case["n"] >= 3 else None)
         if prob and prob.startswith("HARNESS"):
-            raise RuntimeError(prob)
+            harness.append(prob)
+            continue
         if drift:
             ndrift += 1
             if ndrift <= 5:
@@ -884,6 +911,8 @@ def drive(rep, runs, prop, n_variants=1, max_replays=None):
         if prob:
             rep.add_violation(dict(case=case, variant=variant), prob, key=case_key(case, variant))
     rep.extra["model_drift_cases"] = ndrift
+    if harness:
+        raise RuntimeError("%d replay(s) ended in a harness exception, first: %s" % (len(harness), harness[0]))
     return results
 
 
